@@ -42,9 +42,20 @@ func main() {
 	symW := flag.String("symworkers", "", "developer aid: print worker-closure facts of pkg:Func")
 	symM := flag.String("symmeta", "", "developer aid: summarise a parser pkg:Func(reader)")
 	symForks := flag.Int("symforks", 2, "with -symmeta: iteration bound")
+	symF := flag.String("symfn", "", "developer aid: summarise any function pkg:Func or pkg:Type.Method")
+	symIter := flag.Int("symiter", 0, "with -symfn: MaxIter")
 	symFail := flag.Bool("symfail", false, "with -sym: explore read-failure outcomes")
 	flag.Parse()
 
+	if *symF != "" {
+		p, err := Load(*repo, "")
+		if err != nil {
+			fmt.Println(err)
+			os.Exit(2)
+		}
+		debugFn(p, *symF, *symIter, *symForks, *symFail)
+		return
+	}
 	if *symM != "" {
 		p, err := Load(*repo, "")
 		if err != nil {
